@@ -90,6 +90,7 @@ CONCUR_MON = {
     'C09': ('C09_FinalForest',),
     'C12': ('C12_FinalConsumers',),
     'C11': ('C11_FinalViewsAgree', 'Escaped'),
+    'C19': ('C19_FinalIds',),
 }
 
 FAULT = {
@@ -319,6 +320,13 @@ def run_seq(prop, tier, seed, model=True):
             known.extend(k2)
             n3 += n2
         extra_cov['interleavings_checked_for_agreeing_views'] = n3
+    if prop == 'C19':
+        # racing creations: identifiers stay unique, existing names are never duplicated,
+        # the outcome is that of some serial order
+        v2, k2, n2 = concur_supplement('C19', 'C19', tier, seed)
+        violations.extend(v2)
+        known.extend(k2)
+        extra_cov['interleavings_of_racing_creations'] = n2
     if prop == 'C10':
         # generations never decrease: also on every commit of racing requests
         n2 = 0
